@@ -1,4 +1,4 @@
-package drivers
+package c20conv
 
 // C20 — API versions convert without losing what the user wrote.
 //
@@ -11,7 +11,6 @@ import (
 	"fmt"
 	"math/rand"
 	"reflect"
-	"sort"
 	"strings"
 
 	"github.com/openkruise/rollouts/api/v1alpha1"
@@ -22,6 +21,7 @@ import (
 	gatewayv1beta1 "sigs.k8s.io/gateway-api/apis/v1beta1"
 
 	"verif/harness/core"
+	"verif/harness/gen"
 )
 
 func init() {
@@ -67,13 +67,8 @@ func c20Case(env *core.Env, idx int) *core.CaseResult {
 
 // ---- small generators ------------------------------------------------------------------------
 
-func pick(rng *rand.Rand, xs ...string) string { return xs[rng.Intn(len(xs))] }
-func chance(rng *rand.Rand, pct int) bool      { return rng.Intn(100) < pct }
-func i32p(v int32) *int32                      { return &v }
-func strp(s string) *string                    { return &s }
-
 func genIntOrStr(rng *rand.Rand) intstr.IntOrString {
-	if chance(rng, 50) {
+	if gen.Chance(rng, 50) {
 		return intstr.FromInt(rng.Intn(20))
 	}
 	return intstr.FromString(fmt.Sprintf("%d%%", rng.Intn(101)))
@@ -91,7 +86,7 @@ func genMap(rng *rand.Rand, allowNil bool) map[string]string {
 	}
 	m := map[string]string{}
 	for i, n := 0, 1+rng.Intn(3); i < n; i++ {
-		m[pick(rng, "a", "b", "team", "x/y", "k8s.io/z")] = pick(rng, "", "1", "v", "long-value")
+		m[gen.Pick(rng, "a", "b", "team", "x/y", "k8s.io/z")] = gen.Pick(rng, "", "1", "v", "long-value")
 	}
 	return m
 }
@@ -103,9 +98,9 @@ func genTime(rng *rand.Rand) metav1.Time {
 func genHeaderMatches(rng *rand.Rand) []gatewayv1beta1.HTTPHeaderMatch {
 	var hs []gatewayv1beta1.HTTPHeaderMatch
 	for i, n := 0, rng.Intn(3); i < n; i++ {
-		h := gatewayv1beta1.HTTPHeaderMatch{Name: gatewayv1beta1.HTTPHeaderName(pick(rng, "user", "x-canary", "env")), Value: pick(rng, "a", "b", "^c.*")}
-		if chance(rng, 60) {
-			t := gatewayv1beta1.HeaderMatchType(pick(rng, "Exact", "RegularExpression"))
+		h := gatewayv1beta1.HTTPHeaderMatch{Name: gatewayv1beta1.HTTPHeaderName(gen.Pick(rng, "user", "x-canary", "env")), Value: gen.Pick(rng, "a", "b", "^c.*")}
+		if gen.Chance(rng, 60) {
+			t := gatewayv1beta1.HeaderMatchType(gen.Pick(rng, "Exact", "RegularExpression"))
 			h.Type = &t
 		}
 		hs = append(hs, h)
@@ -114,18 +109,18 @@ func genHeaderMatches(rng *rand.Rand) []gatewayv1beta1.HTTPHeaderMatch {
 }
 
 func genHeaderModifier(rng *rand.Rand) *gatewayv1beta1.HTTPHeaderFilter {
-	if chance(rng, 65) {
+	if gen.Chance(rng, 65) {
 		return nil
 	}
 	f := &gatewayv1beta1.HTTPHeaderFilter{}
 	for i, n := 0, rng.Intn(3); i < n; i++ {
-		f.Set = append(f.Set, gatewayv1beta1.HTTPHeader{Name: gatewayv1beta1.HTTPHeaderName(pick(rng, "h1", "h2")), Value: pick(rng, "v1", "v2")})
+		f.Set = append(f.Set, gatewayv1beta1.HTTPHeader{Name: gatewayv1beta1.HTTPHeaderName(gen.Pick(rng, "h1", "h2")), Value: gen.Pick(rng, "v1", "v2")})
 	}
 	for i, n := 0, rng.Intn(2); i < n; i++ {
-		f.Add = append(f.Add, gatewayv1beta1.HTTPHeader{Name: "add", Value: pick(rng, "v1", "v2")})
+		f.Add = append(f.Add, gatewayv1beta1.HTTPHeader{Name: "add", Value: gen.Pick(rng, "v1", "v2")})
 	}
 	for i, n := 0, rng.Intn(2); i < n; i++ {
-		f.Remove = append(f.Remove, pick(rng, "r1", "r2"))
+		f.Remove = append(f.Remove, gen.Pick(rng, "r1", "r2"))
 	}
 	return f
 }
@@ -133,36 +128,36 @@ func genHeaderModifier(rng *rand.Rand) *gatewayv1beta1.HTTPHeaderFilter {
 func genConditionsA(rng *rand.Rand) []v1alpha1.RolloutCondition {
 	var cs []v1alpha1.RolloutCondition
 	for i, n := 0, rng.Intn(3); i < n; i++ {
-		cs = append(cs, v1alpha1.RolloutCondition{Type: v1alpha1.RolloutConditionType(pick(rng, "Progressing", "Succeeded", "Terminating")),
-			Status: corev1.ConditionStatus(pick(rng, "True", "False", "Unknown")), Reason: pick(rng, "InRolling", "Completed", "Paused", ""), Message: pick(rng, "", "m"),
+		cs = append(cs, v1alpha1.RolloutCondition{Type: v1alpha1.RolloutConditionType(gen.Pick(rng, "Progressing", "Succeeded", "Terminating")),
+			Status: corev1.ConditionStatus(gen.Pick(rng, "True", "False", "Unknown")), Reason: gen.Pick(rng, "InRolling", "Completed", "Paused", ""), Message: gen.Pick(rng, "", "m"),
 			LastUpdateTime: genTime(rng), LastTransitionTime: genTime(rng)})
 	}
 	return cs
 }
 
 func genMeta(rng *rand.Rand, alphaStyle bool) metav1.ObjectMeta {
-	m := metav1.ObjectMeta{Name: pick(rng, "ro", "demo", "a-b"), Namespace: pick(rng, "default", "ns1"), Generation: int64(rng.Intn(5))}
-	if chance(rng, 50) {
+	m := metav1.ObjectMeta{Name: gen.Pick(rng, "ro", "demo", "a-b"), Namespace: gen.Pick(rng, "default", "ns1"), Generation: int64(rng.Intn(5))}
+	if gen.Chance(rng, 50) {
 		m.Labels = genMap(rng, true)
 	}
-	if chance(rng, 70) {
+	if gen.Chance(rng, 70) {
 		m.Annotations = genMap(rng, true)
 	}
 	if alphaStyle {
-		if chance(rng, 70) {
+		if gen.Chance(rng, 70) {
 			if m.Annotations == nil {
 				m.Annotations = map[string]string{}
 			}
-			m.Annotations[v1alpha1.RolloutStyleAnnotation] = pick(rng, "partition", "Partition", "canary", "Canary", "PARTITION", "")
+			m.Annotations[v1alpha1.RolloutStyleAnnotation] = gen.Pick(rng, "partition", "Partition", "canary", "Canary", "PARTITION", "")
 		}
-		if chance(rng, 30) {
+		if gen.Chance(rng, 30) {
 			if m.Annotations == nil {
 				m.Annotations = map[string]string{}
 			}
-			m.Annotations[v1alpha1.TrafficRoutingAnnotation] = pick(rng, "tr-demo", "tr2", "")
+			m.Annotations[v1alpha1.TrafficRoutingAnnotation] = gen.Pick(rng, "tr-demo", "tr2", "")
 		}
 	}
-	if chance(rng, 30) {
+	if gen.Chance(rng, 30) {
 		m.Finalizers = []string{"rollouts.kruise.io/rollout"}
 	}
 	return m
@@ -171,18 +166,18 @@ func genMeta(rng *rand.Rand, alphaStyle bool) metav1.ObjectMeta {
 func genRoutesA(rng *rand.Rand) []v1alpha1.TrafficRoutingRef {
 	var out []v1alpha1.TrafficRoutingRef
 	for i, n := 0, rng.Intn(3); i < n; i++ {
-		r := v1alpha1.TrafficRoutingRef{Service: pick(rng, "svc", "echo"), GracePeriodSeconds: int32(rng.Intn(5))}
-		if chance(rng, 50) {
-			r.Ingress = &v1alpha1.IngressTrafficRouting{Name: pick(rng, "ing", "ing2"), ClassType: pick(rng, "", "nginx", "aliyun-alb")}
+		r := v1alpha1.TrafficRoutingRef{Service: gen.Pick(rng, "svc", "echo"), GracePeriodSeconds: int32(rng.Intn(5))}
+		if gen.Chance(rng, 50) {
+			r.Ingress = &v1alpha1.IngressTrafficRouting{Name: gen.Pick(rng, "ing", "ing2"), ClassType: gen.Pick(rng, "", "nginx", "aliyun-alb")}
 		}
-		if chance(rng, 40) {
+		if gen.Chance(rng, 40) {
 			r.Gateway = &v1alpha1.GatewayTrafficRouting{}
-			if chance(rng, 80) {
-				r.Gateway.HTTPRouteName = strp(pick(rng, "route", "r2"))
+			if gen.Chance(rng, 80) {
+				r.Gateway.HTTPRouteName = gen.Strp(gen.Pick(rng, "route", "r2"))
 			}
 		}
 		for j, m := 0, rng.Intn(3); j < m; j++ {
-			r.CustomNetworkRefs = append(r.CustomNetworkRefs, v1alpha1.CustomNetworkRef{APIVersion: "networking.istio.io/v1alpha3", Kind: pick(rng, "VirtualService", "DestinationRule"), Name: pick(rng, "vs", "dr")})
+			r.CustomNetworkRefs = append(r.CustomNetworkRefs, v1alpha1.CustomNetworkRef{APIVersion: "networking.istio.io/v1alpha3", Kind: gen.Pick(rng, "VirtualService", "DestinationRule"), Name: gen.Pick(rng, "vs", "dr")})
 		}
 		out = append(out, r)
 	}
@@ -192,29 +187,29 @@ func genRoutesA(rng *rand.Rand) []v1alpha1.TrafficRoutingRef {
 func genAlphaRollout(rng *rand.Rand) (*v1alpha1.Rollout, string) {
 	ro := &v1alpha1.Rollout{ObjectMeta: genMeta(rng, true)}
 	mask := 0
-	if chance(rng, 85) {
+	if gen.Chance(rng, 85) {
 		mask |= 1
-		ro.Spec.ObjectRef.WorkloadRef = &v1alpha1.WorkloadRef{APIVersion: pick(rng, "apps/v1", "apps.kruise.io/v1alpha1"), Kind: pick(rng, "Deployment", "CloneSet", "StatefulSet"), Name: pick(rng, "echo", "w")}
+		ro.Spec.ObjectRef.WorkloadRef = &v1alpha1.WorkloadRef{APIVersion: gen.Pick(rng, "apps/v1", "apps.kruise.io/v1alpha1"), Kind: gen.Pick(rng, "Deployment", "CloneSet", "StatefulSet"), Name: gen.Pick(rng, "echo", "w")}
 	}
-	ro.Spec.Disabled = chance(rng, 20)
-	ro.Spec.Strategy.Paused = chance(rng, 20)
+	ro.Spec.Disabled = gen.Chance(rng, 20)
+	ro.Spec.Strategy.Paused = gen.Chance(rng, 20)
 	nsteps := 0
-	if chance(rng, 88) {
+	if gen.Chance(rng, 88) {
 		mask |= 2
 		c := &v1alpha1.CanaryStrategy{}
 		ro.Spec.Strategy.Canary = c
 		nsteps = rng.Intn(5)
 		for i := 0; i < nsteps; i++ {
 			s := v1alpha1.CanaryStep{}
-			if chance(rng, 60) {
-				s.Weight = i32p(int32(rng.Intn(101)))
+			if gen.Chance(rng, 60) {
+				s.Weight = gen.I32p(int32(rng.Intn(101)))
 			}
-			if chance(rng, 60) {
+			if gen.Chance(rng, 60) {
 				v := genIntOrStr(rng)
 				s.Replicas = &v
 			}
-			if chance(rng, 40) {
-				s.Pause.Duration = i32p(int32(rng.Intn(100)))
+			if gen.Chance(rng, 40) {
+				s.Pause.Duration = gen.I32p(int32(rng.Intn(100)))
 			}
 			for j, m := 0, rng.Intn(3); j < m; j++ {
 				s.Matches = append(s.Matches, v1alpha1.HttpRouteMatch{Headers: genHeaderMatches(rng)})
@@ -223,32 +218,32 @@ func genAlphaRollout(rng *rand.Rand) (*v1alpha1.Rollout, string) {
 			c.Steps = append(c.Steps, s)
 		}
 		c.TrafficRoutings = genRoutesA(rng)
-		if chance(rng, 30) {
+		if gen.Chance(rng, 30) {
 			mask |= 4
 			v := genIntOrStr(rng)
 			c.FailureThreshold = &v
 		}
-		if chance(rng, 30) {
+		if gen.Chance(rng, 30) {
 			mask |= 8
 			c.PatchPodTemplateMetadata = &v1alpha1.PatchPodTemplateMetadata{Annotations: genMap(rng, true), Labels: genMap(rng, true)}
 		}
-		if chance(rng, 30) {
+		if gen.Chance(rng, 30) {
 			mask |= 16
 			c.DisableGenerateCanaryService = true
 		}
 	}
 	ro.Status.ObservedGeneration = int64(rng.Intn(4))
-	ro.Status.Phase = v1alpha1.RolloutPhase(pick(rng, "", "Initial", "Healthy", "Progressing", "Terminating", "Disabled"))
-	ro.Status.Message = pick(rng, "", "msg")
+	ro.Status.Phase = v1alpha1.RolloutPhase(gen.Pick(rng, "", "Initial", "Healthy", "Progressing", "Terminating", "Disabled"))
+	ro.Status.Message = gen.Pick(rng, "", "msg")
 	ro.Status.Conditions = genConditionsA(rng)
-	if chance(rng, 60) {
+	if gen.Chance(rng, 60) {
 		mask |= 32
-		cs := &v1alpha1.CanaryStatus{ObservedWorkloadGeneration: int64(rng.Intn(9)), ObservedRolloutID: pick(rng, "", "r1"), RolloutHash: pick(rng, "", "h"),
-			StableRevision: pick(rng, "", "s1"), CanaryRevision: pick(rng, "", "c1"), PodTemplateHash: pick(rng, "", "p1"), CanaryReplicas: int32(rng.Intn(9)),
+		cs := &v1alpha1.CanaryStatus{ObservedWorkloadGeneration: int64(rng.Intn(9)), ObservedRolloutID: gen.Pick(rng, "", "r1"), RolloutHash: gen.Pick(rng, "", "h"),
+			StableRevision: gen.Pick(rng, "", "s1"), CanaryRevision: gen.Pick(rng, "", "c1"), PodTemplateHash: gen.Pick(rng, "", "p1"), CanaryReplicas: int32(rng.Intn(9)),
 			CanaryReadyReplicas: int32(rng.Intn(9)), NextStepIndex: int32(rng.Intn(6) - 1), CurrentStepIndex: int32(rng.Intn(6)),
-			CurrentStepState: v1alpha1.CanaryStepState(pick(rng, "StepUpgrade", "StepTrafficRouting", "StepMetricsAnalysis", "StepPaused", "StepReady", "Completed")),
-			Message:          pick(rng, "", "m"), FinalisingStep: v1alpha1.FinalizeStateType(pick(rng, "", "RestoreStableService", "END"))}
-		if chance(rng, 60) {
+			CurrentStepState: v1alpha1.CanaryStepState(gen.Pick(rng, "StepUpgrade", "StepTrafficRouting", "StepMetricsAnalysis", "StepPaused", "StepReady", "Completed")),
+			Message:          gen.Pick(rng, "", "m"), FinalisingStep: v1alpha1.FinalizeStateType(gen.Pick(rng, "", "RestoreStableService", "END"))}
+		if gen.Chance(rng, 60) {
 			t := genTime(rng)
 			cs.LastUpdateTime = &t
 		}
@@ -263,7 +258,7 @@ func genAlphaRollout(rng *rand.Rand) (*v1alpha1.Rollout, string) {
 
 // ---- normal forms -----------------------------------------------------------------------------
 
-type nf = map[string]interface{}
+type nf = gen.NF
 
 func nfIOS(v *intstr.IntOrString) interface{} {
 	if v == nil {
@@ -417,71 +412,12 @@ func nfAlphaRollout(ro *v1alpha1.Rollout) nf {
 	return out
 }
 
-// firstDiff returns the path of the first difference between two JSON-like values.
-func firstDiff(path string, a, b interface{}) string {
-	a, b = canon(a), canon(b)
-	if reflect.DeepEqual(a, b) {
-		return ""
-	}
-	am, aok := a.(map[string]interface{})
-	bm, bok := b.(map[string]interface{})
-	if aok && bok {
-		keys := map[string]bool{}
-		for k := range am {
-			keys[k] = true
-		}
-		for k := range bm {
-			keys[k] = true
-		}
-		var ks []string
-		for k := range keys {
-			ks = append(ks, k)
-		}
-		sort.Strings(ks)
-		for _, k := range ks {
-			if d := firstDiff(path+"."+k, am[k], bm[k]); d != "" {
-				return d
-			}
-		}
-		return path
-	}
-	as, aok := a.([]interface{})
-	bs, bok := b.([]interface{})
-	if aok && bok {
-		if len(as) != len(bs) {
-			return path + "[len]"
-		}
-		for i := range as {
-			if d := firstDiff(path+"[]", as[i], bs[i]); d != "" {
-				return d
-			}
-		}
-		return path
-	}
-	return path
-}
-
-func canon(v interface{}) interface{} {
-	b, err := json.Marshal(v)
-	if err != nil {
-		return v
-	}
-	var out interface{}
-	_ = json.Unmarshal(b, &out)
-	return out
-}
-
-func jsonOf(v interface{}) json.RawMessage {
-	b, _ := json.Marshal(v)
-	return b
-}
-
 // ---- cases -------------------------------------------------------------------------------------
 
 func c20AlphaRollout(rng *rand.Rand, res *core.CaseResult, idx int) {
 	ro, sig := genAlphaRollout(rng)
 	before := nfAlphaRollout(ro)
-	input := jsonOf(ro)
+	input := gen.JSONOf(ro)
 	beta := &v1beta1.Rollout{}
 	var err error
 	if pi := core.Try(func() { err = ro.DeepCopy().ConvertTo(beta) }); pi != nil {
@@ -494,7 +430,7 @@ func c20AlphaRollout(rng *rand.Rand, res *core.CaseResult, idx int) {
 	}
 	// stored as v1beta1: go through JSON as the API server would
 	stored := &v1beta1.Rollout{}
-	_ = json.Unmarshal(jsonOf(beta), stored)
+	_ = json.Unmarshal(gen.JSONOf(beta), stored)
 	back := &v1alpha1.Rollout{}
 	if pi := core.Try(func() { err = back.ConvertFrom(stored) }); pi != nil {
 		res.Violate("c20:panic:Rollout.ConvertFrom:"+pi.Site+":"+core.NormPanic(pi.Value), "ConvertFrom panicked: "+pi.Value, nf{"input": input, "stack": pi.Stack})
@@ -507,7 +443,7 @@ func c20AlphaRollout(rng *rand.Rand, res *core.CaseResult, idx int) {
 	res.Count("roundtrips_compared", 1)
 	res.Count("alpha_rollout_roundtrips", 1)
 	after := nfAlphaRollout(back)
-	if d := firstDiff("", before, after); d != "" {
+	if d := gen.FirstDiff("", before, after); d != "" {
 		res.Violate("c20:loss:v1alpha1.Rollout:"+d, "v1alpha1 -> v1beta1 -> v1alpha1 changed meaning at "+d, nf{"input": input, "before": before, "after": after})
 	}
 	if !strings.Contains(sig, ":m0:") {
@@ -521,8 +457,8 @@ func c20AlphaRollout(rng *rand.Rand, res *core.CaseResult, idx int) {
 func genAlphaBR(rng *rand.Rand) (*v1alpha1.BatchRelease, string) {
 	br := &v1alpha1.BatchRelease{ObjectMeta: genMeta(rng, false)}
 	mask := 0
-	style := pick(rng, "", "", "partition", "Partition", "canary", "Canary", "bluegreen", "BlueGreen")
-	if style != "" || chance(rng, 20) {
+	style := gen.Pick(rng, "", "", "partition", "Partition", "canary", "Canary", "bluegreen", "BlueGreen")
+	if style != "" || gen.Chance(rng, 20) {
 		if br.Annotations == nil {
 			br.Annotations = map[string]string{}
 		}
@@ -536,50 +472,50 @@ func genAlphaBR(rng *rand.Rand) (*v1alpha1.BatchRelease, string) {
 	case "bluegreen":
 		br.Spec.ReleasePlan.RollingStyle = v1alpha1.BlueGreenRollingStyle
 	}
-	if chance(rng, 85) {
+	if gen.Chance(rng, 85) {
 		mask |= 1
-		br.Spec.TargetRef.WorkloadRef = &v1alpha1.WorkloadRef{APIVersion: pick(rng, "apps/v1", "apps.kruise.io/v1alpha1"), Kind: pick(rng, "Deployment", "CloneSet"), Name: pick(rng, "echo", "w")}
+		br.Spec.TargetRef.WorkloadRef = &v1alpha1.WorkloadRef{APIVersion: gen.Pick(rng, "apps/v1", "apps.kruise.io/v1alpha1"), Kind: gen.Pick(rng, "Deployment", "CloneSet"), Name: gen.Pick(rng, "echo", "w")}
 	}
 	p := &br.Spec.ReleasePlan
 	nb := rng.Intn(5)
 	for i := 0; i < nb; i++ {
 		p.Batches = append(p.Batches, v1alpha1.ReleaseBatch{CanaryReplicas: genIntOrStr(rng)})
 	}
-	if chance(rng, 60) {
+	if gen.Chance(rng, 60) {
 		mask |= 2
-		p.BatchPartition = i32p(int32(rng.Intn(5)))
+		p.BatchPartition = gen.I32p(int32(rng.Intn(5)))
 	}
-	p.RolloutID = pick(rng, "", "r1")
-	if chance(rng, 30) {
+	p.RolloutID = gen.Pick(rng, "", "r1")
+	if gen.Chance(rng, 30) {
 		mask |= 4
 		v := genIntOrStr(rng)
 		p.FailureThreshold = &v
 	}
-	p.FinalizingPolicy = v1alpha1.FinalizingPolicyType(pick(rng, "", "WaitResume", "Immediate"))
-	if chance(rng, 30) {
+	p.FinalizingPolicy = v1alpha1.FinalizingPolicyType(gen.Pick(rng, "", "WaitResume", "Immediate"))
+	if gen.Chance(rng, 30) {
 		mask |= 8
 		p.PatchPodTemplateMetadata = &v1alpha1.PatchPodTemplateMetadata{Annotations: genMap(rng, true), Labels: genMap(rng, true)}
 	}
-	p.EnableExtraWorkloadForCanary = chance(rng, 50)
+	p.EnableExtraWorkloadForCanary = gen.Chance(rng, 50)
 	s := &br.Status
 	s.Conditions = genConditionsA(rng)
-	s.StableRevision, s.UpdateRevision = pick(rng, "", "s"), pick(rng, "", "u")
-	s.ObservedGeneration, s.ObservedRolloutID, s.ObservedWorkloadReplicas = int64(rng.Intn(5)), pick(rng, "", "r1"), int32(rng.Intn(10))
-	if chance(rng, 30) {
-		s.CollisionCount = i32p(int32(rng.Intn(3)))
+	s.StableRevision, s.UpdateRevision = gen.Pick(rng, "", "s"), gen.Pick(rng, "", "u")
+	s.ObservedGeneration, s.ObservedRolloutID, s.ObservedWorkloadReplicas = int64(rng.Intn(5)), gen.Pick(rng, "", "r1"), int32(rng.Intn(10))
+	if gen.Chance(rng, 30) {
+		s.CollisionCount = gen.I32p(int32(rng.Intn(3)))
 	}
-	s.ObservedReleasePlanHash = pick(rng, "", "h")
-	s.Phase = v1alpha1.RolloutPhase(pick(rng, "", "Preparing", "Progressing", "Finalizing", "Completed"))
-	s.CanaryStatus = v1alpha1.BatchReleaseCanaryStatus{CurrentBatchState: v1alpha1.BatchReleaseBatchStateType(pick(rng, "", "Upgrading", "Verifying", "Ready")),
+	s.ObservedReleasePlanHash = gen.Pick(rng, "", "h")
+	s.Phase = v1alpha1.RolloutPhase(gen.Pick(rng, "", "Preparing", "Progressing", "Finalizing", "Completed"))
+	s.CanaryStatus = v1alpha1.BatchReleaseCanaryStatus{CurrentBatchState: v1alpha1.BatchReleaseBatchStateType(gen.Pick(rng, "", "Upgrading", "Verifying", "Ready")),
 		CurrentBatch: int32(rng.Intn(5)), UpdatedReplicas: int32(rng.Intn(10)), UpdatedReadyReplicas: int32(rng.Intn(10))}
-	if chance(rng, 40) {
+	if gen.Chance(rng, 40) {
 		mask |= 16
 		t := genTime(rng)
 		s.CanaryStatus.BatchReadyTime = &t
 	}
-	if chance(rng, 30) {
+	if gen.Chance(rng, 30) {
 		mask |= 32
-		s.CanaryStatus.NoNeedUpdateReplicas = i32p(int32(rng.Intn(5)))
+		s.CanaryStatus.NoNeedUpdateReplicas = gen.I32p(int32(rng.Intn(5)))
 	}
 	return br, fmt.Sprintf("aBR:m%d:b%d:c%d:%s", mask, nb, len(s.Conditions), strings.ToLower(style))
 }
@@ -622,7 +558,7 @@ func nfAlphaBR(br *v1alpha1.BatchRelease) nf {
 func c20AlphaBR(rng *rand.Rand, res *core.CaseResult, idx int) {
 	br, sig := genAlphaBR(rng)
 	before := nfAlphaBR(br)
-	input := jsonOf(br)
+	input := gen.JSONOf(br)
 	beta := &v1beta1.BatchRelease{}
 	var err error
 	if pi := core.Try(func() { err = br.DeepCopy().ConvertTo(beta) }); pi != nil {
@@ -634,7 +570,7 @@ func c20AlphaBR(rng *rand.Rand, res *core.CaseResult, idx int) {
 		return
 	}
 	stored := &v1beta1.BatchRelease{}
-	_ = json.Unmarshal(jsonOf(beta), stored)
+	_ = json.Unmarshal(gen.JSONOf(beta), stored)
 	back := &v1alpha1.BatchRelease{}
 	if pi := core.Try(func() { err = back.ConvertFrom(stored) }); pi != nil {
 		res.Violate("c20:panic:BatchRelease.ConvertFrom:"+pi.Site+":"+core.NormPanic(pi.Value), "ConvertFrom panicked: "+pi.Value, nf{"input": input, "stack": pi.Stack})
@@ -647,7 +583,7 @@ func c20AlphaBR(rng *rand.Rand, res *core.CaseResult, idx int) {
 	res.Count("roundtrips_compared", 1)
 	res.Count("alpha_batchrelease_roundtrips", 1)
 	after := nfAlphaBR(back)
-	if d := firstDiff("", before, after); d != "" {
+	if d := gen.FirstDiff("", before, after); d != "" {
 		res.Violate("c20:loss:v1alpha1.BatchRelease:"+d, "v1alpha1 -> v1beta1 -> v1alpha1 changed meaning at "+d, nf{"input": input, "before": before, "after": after})
 	}
 	if !strings.Contains(sig, ":m0:") {
@@ -662,13 +598,13 @@ func c20AlphaBR(rng *rand.Rand, res *core.CaseResult, idx int) {
 
 func genBetaRollout(rng *rand.Rand) (*v1beta1.Rollout, string) {
 	ro := &v1beta1.Rollout{ObjectMeta: genMeta(rng, false)}
-	ro.Spec.WorkloadRef = v1beta1.ObjectRef{APIVersion: pick(rng, "apps/v1", "apps.kruise.io/v1alpha1"), Kind: pick(rng, "Deployment", "CloneSet"), Name: pick(rng, "echo", "w")}
-	ro.Spec.Disabled = chance(rng, 20)
-	ro.Spec.Strategy.Paused = chance(rng, 20)
+	ro.Spec.WorkloadRef = v1beta1.ObjectRef{APIVersion: gen.Pick(rng, "apps/v1", "apps.kruise.io/v1alpha1"), Kind: gen.Pick(rng, "Deployment", "CloneSet"), Name: gen.Pick(rng, "echo", "w")}
+	ro.Spec.Disabled = gen.Chance(rng, 20)
+	ro.Spec.Strategy.Paused = gen.Chance(rng, 20)
 	mask := 0
 	nsteps := 0
 	var c *v1beta1.CanaryStrategy
-	if chance(rng, 92) {
+	if gen.Chance(rng, 92) {
 		mask |= 1
 		c = &v1beta1.CanaryStrategy{}
 		ro.Spec.Strategy.Canary = c
@@ -677,11 +613,11 @@ func genBetaRollout(rng *rand.Rand) (*v1beta1.Rollout, string) {
 			s := v1beta1.CanaryStep{}
 			v := genIntOrStr(rng)
 			s.Replicas = &v
-			if chance(rng, 60) {
-				s.Traffic = strp(fmt.Sprintf("%d%%", rng.Intn(101)))
+			if gen.Chance(rng, 60) {
+				s.Traffic = gen.Strp(fmt.Sprintf("%d%%", rng.Intn(101)))
 			}
-			if chance(rng, 40) {
-				s.Pause.Duration = i32p(int32(rng.Intn(100)))
+			if gen.Chance(rng, 40) {
+				s.Pause.Duration = gen.I32p(int32(rng.Intn(100)))
 			}
 			for j, m := 0, rng.Intn(3); j < m; j++ {
 				s.Matches = append(s.Matches, v1beta1.HttpRouteMatch{Headers: genHeaderMatches(rng)})
@@ -692,41 +628,41 @@ func genBetaRollout(rng *rand.Rand) (*v1beta1.Rollout, string) {
 		for _, r := range genRoutesA(rng) {
 			c.TrafficRoutings = append(c.TrafficRoutings, betaRouteFromAlphaShape(r))
 		}
-		if chance(rng, 30) {
+		if gen.Chance(rng, 30) {
 			mask |= 2
 			v := genIntOrStr(rng)
 			c.FailureThreshold = &v
 		}
-		if chance(rng, 30) {
+		if gen.Chance(rng, 30) {
 			mask |= 4
 			c.PatchPodTemplateMetadata = &v1beta1.PatchPodTemplateMetadata{Annotations: genMap(rng, true), Labels: genMap(rng, true)}
 		}
-		c.EnableExtraWorkloadForCanary = chance(rng, 50)
-		if chance(rng, 30) {
+		c.EnableExtraWorkloadForCanary = gen.Chance(rng, 50)
+		if gen.Chance(rng, 30) {
 			mask |= 8
-			c.TrafficRoutingRef = pick(rng, "tr", "tr2")
+			c.TrafficRoutingRef = gen.Pick(rng, "tr", "tr2")
 		}
-		if chance(rng, 30) {
+		if gen.Chance(rng, 30) {
 			mask |= 16
 			c.DisableGenerateCanaryService = true
 		}
 	}
 	ro.Status.ObservedGeneration = int64(rng.Intn(4))
-	ro.Status.Phase = v1beta1.RolloutPhase(pick(rng, "", "Initial", "Healthy", "Progressing"))
-	ro.Status.Message = pick(rng, "", "msg")
+	ro.Status.Phase = v1beta1.RolloutPhase(gen.Pick(rng, "", "Initial", "Healthy", "Progressing"))
+	ro.Status.Message = gen.Pick(rng, "", "msg")
 	for _, cnd := range genConditionsA(rng) {
 		ro.Status.Conditions = append(ro.Status.Conditions, v1beta1.RolloutCondition{Type: v1beta1.RolloutConditionType(cnd.Type), Status: cnd.Status, Reason: cnd.Reason, Message: cnd.Message,
 			LastUpdateTime: cnd.LastUpdateTime, LastTransitionTime: cnd.LastTransitionTime})
 	}
-	if chance(rng, 60) {
+	if gen.Chance(rng, 60) {
 		mask |= 32
-		cs := &v1beta1.CanaryStatus{CanaryRevision: pick(rng, "", "c1"), CanaryReplicas: int32(rng.Intn(9)), CanaryReadyReplicas: int32(rng.Intn(9))}
-		cs.ObservedWorkloadGeneration, cs.ObservedRolloutID, cs.RolloutHash, cs.StableRevision, cs.PodTemplateHash = int64(rng.Intn(9)), pick(rng, "", "r1"), pick(rng, "", "h"), pick(rng, "", "s1"), pick(rng, "", "p")
+		cs := &v1beta1.CanaryStatus{CanaryRevision: gen.Pick(rng, "", "c1"), CanaryReplicas: int32(rng.Intn(9)), CanaryReadyReplicas: int32(rng.Intn(9))}
+		cs.ObservedWorkloadGeneration, cs.ObservedRolloutID, cs.RolloutHash, cs.StableRevision, cs.PodTemplateHash = int64(rng.Intn(9)), gen.Pick(rng, "", "r1"), gen.Pick(rng, "", "h"), gen.Pick(rng, "", "s1"), gen.Pick(rng, "", "p")
 		cs.CurrentStepIndex, cs.NextStepIndex = int32(rng.Intn(6)), int32(rng.Intn(6)-1)
-		cs.CurrentStepState = v1beta1.CanaryStepState(pick(rng, "StepUpgrade", "StepTrafficRouting", "StepPaused", "StepReady", "Completed"))
-		cs.FinalisingStep = v1beta1.FinalisingStepType(pick(rng, "", "END"))
-		cs.Message = pick(rng, "", "m")
-		if chance(rng, 50) {
+		cs.CurrentStepState = v1beta1.CanaryStepState(gen.Pick(rng, "StepUpgrade", "StepTrafficRouting", "StepPaused", "StepReady", "Completed"))
+		cs.FinalisingStep = v1beta1.FinalisingStepType(gen.Pick(rng, "", "END"))
+		cs.Message = gen.Pick(rng, "", "m")
+		if gen.Chance(rng, 50) {
 			t := genTime(rng)
 			cs.LastUpdateTime = &t
 		}
@@ -808,7 +744,7 @@ func nfBetaRollout(ro *v1beta1.Rollout) nf {
 func c20BetaRollout(rng *rand.Rand, res *core.CaseResult, idx int) {
 	ro, sig := genBetaRollout(rng)
 	before := nfBetaRollout(ro)
-	input := jsonOf(ro)
+	input := gen.JSONOf(ro)
 	alpha := &v1alpha1.Rollout{}
 	var err error
 	if pi := core.Try(func() { err = alpha.ConvertFrom(ro.DeepCopy()) }); pi != nil {
@@ -821,7 +757,7 @@ func c20BetaRollout(rng *rand.Rand, res *core.CaseResult, idx int) {
 	}
 	// the client reads v1alpha1 JSON, modifies nothing, writes it back
 	rw := &v1alpha1.Rollout{}
-	_ = json.Unmarshal(jsonOf(alpha), rw)
+	_ = json.Unmarshal(gen.JSONOf(alpha), rw)
 	back := &v1beta1.Rollout{}
 	if pi := core.Try(func() { err = rw.ConvertTo(back) }); pi != nil {
 		res.Violate("c20:panic:Rollout.ConvertTo:"+pi.Site+":"+core.NormPanic(pi.Value), "ConvertTo panicked: "+pi.Value, nf{"input": input, "stack": pi.Stack})
@@ -834,7 +770,7 @@ func c20BetaRollout(rng *rand.Rand, res *core.CaseResult, idx int) {
 	res.Count("roundtrips_compared", 1)
 	res.Count("beta_rollout_roundtrips", 1)
 	after := nfBetaRollout(back)
-	if d := firstDiff("", before, after); d != "" {
+	if d := gen.FirstDiff("", before, after); d != "" {
 		res.Violate("c20:loss:v1beta1.Rollout:"+d, "v1beta1 -> v1alpha1 -> v1beta1 changed an expressible field at "+d, nf{"input": input, "before": before, "after": after})
 	}
 	if !strings.Contains(sig, ":m0:") {
@@ -856,8 +792,8 @@ func c20BetaBR(rng *rand.Rand, res *core.CaseResult, idx int) {
 	_ = json.Unmarshal(b, br) // identical JSON shape for plan & status
 	br.Spec.WorkloadRef = v1beta1.ObjectRef{APIVersion: a.Spec.TargetRef.WorkloadRef.APIVersion, Kind: a.Spec.TargetRef.WorkloadRef.Kind, Name: a.Spec.TargetRef.WorkloadRef.Name}
 	delete(br.Annotations, v1alpha1.RolloutStyleAnnotation)
-	input := jsonOf(br)
-	before := canon(nf{"spec": br.Spec, "status": br.Status, "meta": nfMeta(br.ObjectMeta, v1alpha1.RolloutStyleAnnotation)})
+	input := gen.JSONOf(br)
+	before := gen.Canon(nf{"spec": br.Spec, "status": br.Status, "meta": nfMeta(br.ObjectMeta, v1alpha1.RolloutStyleAnnotation)})
 	alpha := &v1alpha1.BatchRelease{}
 	var err error
 	if pi := core.Try(func() { err = alpha.ConvertFrom(br.DeepCopy()) }); pi != nil {
@@ -869,7 +805,7 @@ func c20BetaBR(rng *rand.Rand, res *core.CaseResult, idx int) {
 		return
 	}
 	rw := &v1alpha1.BatchRelease{}
-	_ = json.Unmarshal(jsonOf(alpha), rw)
+	_ = json.Unmarshal(gen.JSONOf(alpha), rw)
 	back := &v1beta1.BatchRelease{}
 	if pi := core.Try(func() { err = rw.ConvertTo(back) }); pi != nil {
 		res.Violate("c20:panic:BatchRelease.ConvertTo:"+pi.Site+":"+core.NormPanic(pi.Value), "ConvertTo panicked: "+pi.Value, nf{"input": input, "stack": pi.Stack})
@@ -892,11 +828,11 @@ func c20BetaBR(rng *rand.Rand, res *core.CaseResult, idx int) {
 				p.Labels = nil
 			}
 		}
-		return canon(nf{"spec": y.Spec, "status": y.Status, "meta": nfMeta(y.ObjectMeta, v1alpha1.RolloutStyleAnnotation)})
+		return gen.Canon(nf{"spec": y.Spec, "status": y.Status, "meta": nfMeta(y.ObjectMeta, v1alpha1.RolloutStyleAnnotation)})
 	}
 	before = norm(br)
 	after := norm(back)
-	if d := firstDiff("", before, after); d != "" {
+	if d := gen.FirstDiff("", before, after); d != "" {
 		res.Violate("c20:loss:v1beta1.BatchRelease:"+d, "v1beta1 -> v1alpha1 -> v1beta1 changed an expressible field at "+d, nf{"input": input, "before": before, "after": after})
 	}
 	if !strings.Contains(sig, ":m0:") {
